@@ -33,6 +33,14 @@ pub fn run(k: &str, c: &Value) -> Value {
                     "three" => Plane3::from((&p0, &(p0 + u * s1), &(p0 + v * s2))),
                     "pn" => Plane3::from((&n, &(p0 + u * s1 + v * s2))),
                     "sp" => Plane3::from(&engeom::SurfacePoint3::new(p0 + u * s2, n)),
+                    // the plane of a station of a guide curve running along the normal: part-way along an edge, and at the last vertex
+                    "st" | "stb" => {
+                        let pp = p0 + u * s2;
+                        let last = if c["via"] == "st" { pp + nv * (1.3 * s1) } else { pp };
+                        let guide = engeom::Curve3::from_points(&[pp - nv * (2.0 * s1), pp - nv * (0.7 * s1), last], 1e-9).unwrap();
+                        let st = if c["via"] == "st" { guide.at_length(2.0 * s1).unwrap() } else { guide.at_back() };
+                        st.plane()
+                    }
                     _ => Plane3::new(n, d),
                 }
             };
